@@ -51,20 +51,28 @@ THEOREMS = [
     "PorepyVerif.C26.mortar_projections_conserve",
     "PorepyVerif.C26.constructor_reach_two",
     "PorepyVerif.C26.constructor_reach_one",
+    "PorepyVerif.C26.refine_area",
+    "PorepyVerif.C26.refine_pos",
+    "PorepyVerif.C26.match2d_nested_weights",
+    "PorepyVerif.C26.match2d_nested_avg_rowsum_one",
+    "PorepyVerif.C26.match2d_nested_int_colsum_one",
 ]
 LEAN_MODULES = ["PorepyVerif.C26.Props"]
 AUDIT = "PorepyVerif/C26/Audit.lean"
 DRIVER = "PorepyVerif/C26/Driver.lean"
 N = {"quick": 40, "thorough": 700}
-RULE = ("half the cases: a MortarGrid built directly on a straight segment of arbitrary direction (1 or 2 sides, initial grid uniform or with "
+RULE = ("44% of the cases: a MortarGrid built directly on a straight segment of arbitrary direction (1 or 2 sides, initial grid uniform or with "
         "random rational nodes, either node orientation, random primary_secondary map with extra uncovered faces, with or without "
         "face_duplicate_ind, 8% malformed maps) followed by 1-4 (thorough 1-7) update_mortar (one side, both sides with different or equal "
-        "new grids) / update_secondary calls with uniform ratios 1-6 or random rational node sets; other half: Cartesian 2-D host "
+        "new grids) / update_secondary calls with uniform ratios 1-6 or random rational node sets; 44%: Cartesian 2-D host "
         "(pp.meshing.cart_grid, 12x4 domain, 2-12 by 2-4 cells, transposed in a third of the cases) with 1-2 axis-aligned fractures "
         "(interior, touching the boundary, full width) followed by 1-4 (thorough 1-6) MixedDimensionalGrid.replace_subdomains_and_interfaces "
         "calls replacing mortar side grids (35%), the fracture grid (25%; refine_grid_1d ratio 2-4 or random nodes) or the 2-D host (40%; "
-        "other nested or non-nested resolution, fracture nodes shifted along the fracture by up to 3/8 cell); thorough adds 6% MortarGrids "
-        "with 2-D simplex side grids (match_2d, oracle only). non-trivial = at least one replacement that makes the grids non-matching; "
+        "other nested or non-nested resolution, fracture nodes shifted along the fracture by up to 3/8 cell); 12%: 2-D mortar grids - a "
+        "parallelogram cut into 2 or 4 triangles and a random nested refinement of every triangle (bisections at 1/4..3/4, interior nodes, "
+        "regular 4-way refinement, depth 2, thorough 3): pp.match_grids.match_2d for both scalings is compared with the Lean model and a "
+        "MortarGrid with these side grids is put through update_mortar / update_secondary (oracle); thorough adds 6% MortarGrids "
+        "with non-nested 2-D simplex side grids (match_2d, oracle only). non-trivial = at least one replacement that makes the grids non-matching; "
         "distinct = distinct cases")
 TRUSTED = [
     "modelled, not verified: scipy.sparse products / bmat / transposes / coo listing order, porepy.intersections.line_tessellation -> segments_3d "
@@ -75,8 +83,10 @@ TRUSTED = [
     "interval from the grids independently and the model matches them per side (faceMatch)",
     "hypotheses of face_update_valid (the fracture faces of one side tessellate the same segment in the old and the new host, distinct face "
     "indices, all listed old faces covered) are properties of the generated grids, not proved about split_grid / cart_grid",
-    "not proved in Lean: that initBase (index bookkeeping of _init_projections) yields matchingSide blocks per side; compared by correspondence",
-    "match_2d / shapely triangulation overlaps (2-D mortar grids): oracle only, thorough tier",
+    "hypotheses of constructor_two_sides / constructor_one_side (WellFormedMap: unit data, every primary face listed once, every secondary "
+    "cell coupled) are properties of the face_cells map produced by split_grid / the generator, not proved about those",
+    "match_2d: shapely polygon intersections; for nested refinements modelled as 'overlap of a new cell with its parent = its area' "
+    "(match2dNested) and compared densely; non-nested 2-D simplex grids: oracle only, thorough tier",
 ]
 EXPLANATION = ("CORE (partial): the model covers _init_projections, _set_projections, update_mortar / update_secondary / update_primary as matrix "
                "algebra over exact rationals and match_1d as interval overlaps. Proved for all inputs: overlap weights of two tessellations of a "
@@ -86,8 +96,14 @@ EXPLANATION = ("CORE (partial): the model covers _init_projections, _set_project
                "EVERY history of valid updates the invariant (unit row sums of averaged maps, unit column sums of integrated maps on covered "
                "faces, support on covered faces) holds; the four mortar-to-grid maps are the transposes of the grid-to-mortar maps after every "
                "history although update_secondary / update_primary refresh one pair only; the matrices of match_1d / "
-               "match_grids_along_1d_mortar (as modelled) are valid updates whenever the grids tessellate the same segment. Not proved: that "
-               "initBase yields matching per-side blocks, the geometric face identification, floating point. Correspondence compares all eight matrices densely after every "
+               "match_grids_along_1d_mortar (as modelled) are valid updates whenever the grids tessellate the same segment; the constructor "
+               "(initBase = _init_projections incl. stable sort, two-side reordering, face_duplicate_ind) stores the stack of matching 0/1 "
+               "sides satisfying the invariant (constructor_two_sides / constructor_one_side); mortar_projections_conserve combines everything: "
+               "every interface state reachable from the constructor by valid update_mortar / update_secondary / update_primary calls has "
+               "transposed pairs, is the stack of its sides, and on each side all eight projections have unit row sums (averaged) resp. unit "
+               "column sums (integrated) on the covered entities. 2-D mortar grids: children of any nested triangle refinement recipe "
+               "partition the parent (areas add up, orientation kept), hence match_2d's averaged / integrated matrices of a nested refinement "
+               "are row- / column-stochastic. Not proved: the geometric face identification, non-nested 2-D overlaps, floating point. Correspondence compares all eight matrices densely after every "
                "step with tolerance 1e-10; the oracle checks the property (and that cell measures are mapped to cell measures) on the real objects.")
 ASSUMPTIONS = [
     "fractures are straight; 1-D mortar grids (2-D mortar grids through match_2d are covered by the oracle only)",
@@ -205,10 +221,41 @@ def _gen_tri(rng, tier):
     return {"kind": "tri", "nsides": nsides, "n": [rng.randint(1, 2), rng.randint(1, 2)], "steps": steps}
 
 
+def _gen_recipe(rng, depth):
+    """flat prefix encoding of a nested refinement recipe (see Ref in Model.lean); dyadic parameters"""
+    if depth == 0 or rng.random() < 0.3:
+        return ["0"]
+    k = rng.random()
+    if k < 0.4:
+        return ["1", rng.choice(["1/2", "1/4", "3/4", "3/8"])] + _gen_recipe(rng, depth - 1) + _gen_recipe(rng, depth - 1)
+    if k < 0.6:
+        return ["2"] + _gen_recipe(rng, depth)
+    if k < 0.8:
+        u, v = rng.choice([("1/4", "1/4"), ("1/2", "1/4"), ("1/8", "5/8"), ("1/4", "1/2")])
+        return ["3", u, v] + _gen_recipe(rng, depth - 1) + _gen_recipe(rng, depth - 1) + _gen_recipe(rng, depth - 1)
+    return ["4"] + [x for _ in range(4) for x in _gen_recipe(rng, depth - 1)]
+
+
+def _gen_nest(rng, tier):
+    """old grid: a parallelogram cut into 2 or 4 triangles; new grid: a nested refinement of every triangle"""
+    o = [rng.randint(-2, 2), rng.randint(-2, 2)]
+    e1, e2 = rng.choice([([2, 0], [0, 2]), ([4, 0], [2, 2]), ([2, 2], [-2, 4]), ([1, 0], [0, 4])])
+    P = lambda a, b: [str(Fraction(o[0]) + a * e1[0] + b * e2[0]), str(Fraction(o[1]) + a * e1[1] + b * e2[1])]
+    if rng.random() < 0.5:
+        tris = [P(0, 0) + P(1, 0) + P(1, 1), P(0, 0) + P(1, 1) + P(0, 1)]
+    else:
+        c = P(Fraction(1, 2), Fraction(1, 2))
+        tris = [P(0, 0) + P(1, 0) + c, P(1, 0) + P(1, 1) + c, P(1, 1) + P(0, 1) + c, P(0, 1) + P(0, 0) + c]
+    depth = 2 if tier == "quick" else 3
+    return {"kind": "nest", "parents": tris, "recipes": [_gen_recipe(rng, depth) for _ in tris], "nsides": rng.choice([1, 2])}
+
+
 def gen_case(rng, tier):
     r = rng.random()
     if tier == "thorough" and r < 0.06:
         return _gen_tri(rng, tier)
+    if r > 0.88:
+        return _gen_nest(rng, tier)
     if r < 0.5:
         return _gen_syn(rng, tier)
     return _gen_mdg(rng, tier)
@@ -495,12 +542,113 @@ class _Trace:
                 g = tri(st["n"])
                 intf.update_secondary(g, 1e-6)
                 ctx["n_sec"] = g.num_cells
+                ctx["sec"] = g
             if self.hook and self.hook(f"step{k}:{st['op']}", ctx):
                 return
+
+    # ---- nest: 2-D mortar grids, nested triangle refinement (match_2d)
+    def run_nest(self):
+        import porepy as pp
+        from porepy.grids.mortar_grid import MortarSides
+        c = self.case
+        parents = [[Fraction(x) for x in t] for t in c["parents"]]
+        kids = []
+        for t, enc in zip(parents, c["recipes"]):
+            out, rest = _py_refine(list(enc), ((t[0], t[1]), (t[2], t[3]), (t[4], t[5])))
+            assert not rest
+            kids += out
+
+        def grid(tris):
+            pts, idx, conn = [], {}, []
+            for t in tris:
+                col = []
+                for v in t:
+                    if v not in idx:
+                        idx[v] = len(pts)
+                        pts.append(v)
+                    col.append(idx[v])
+                conn.append(col)
+            p = np.array([[float(x) for x, _ in pts], [float(y) for _, y in pts]])
+            g = pp.TriangleGrid(p, np.array(conn, dtype=int).T.copy())
+            g.compute_geometry()
+            return g
+
+        old = grid([((t[0], t[1]), (t[2], t[3]), (t[4], t[5])) for t in parents])
+        new = grid(kids)
+        self.ops.append({"op": "match2d", "parents": c["parents"], "recipes": c["recipes"]})
+        out = {}
+        for sc in ("averaged", "integrated"):
+            out[sc] = _dense(pp.match_grids.match_2d(new, old, 1e-6, scaling=sc))
+        out["areas2"] = [_fr(2 * v) for v in new.cell_volumes]
+        self.impl.append(out)
+        self.nest = (old, new)
+        # exact expectation (Fractions, independent of the Lean model): a new cell overlaps its parent with its own area
+        area = lambda t: abs((t[1][0] - t[0][0]) * (t[2][1] - t[0][1]) - (t[2][0] - t[0][0]) * (t[1][1] - t[0][1])) / 2
+        par = []
+        for j, (t, enc) in enumerate(zip(parents, c["recipes"])):
+            par += [j] * len(_py_refine(list(enc), ((t[0], t[1]), (t[2], t[3]), (t[4], t[5])))[0])
+        W = np.zeros((len(kids), len(parents)))
+        for i, k in enumerate(kids):
+            W[i, par[i]] = float(area(k))
+        self.nest_exact = W
+        # which pairs of cells overlap at all (scaling=None: 1 where the reported overlap exceeds tol)
+        self.nest_self = pp.match_grids.match_2d(new, new, 1e-6, scaling=None).toarray()
+        self.nest_pat = pp.match_grids.match_2d(new, old, 1e-6, scaling=None).toarray()
+        SIDES = [MortarSides.LEFT_SIDE, MortarSides.RIGHT_SIDE][: c["nsides"]]
+        nc = old.num_cells
+        rows = list(range(nc)) * c["nsides"]
+        cols = list(range(nc * c["nsides"]))
+        ps = sps.csc_matrix((np.ones(len(rows), dtype=bool), (rows, cols)), shape=(nc, nc * c["nsides"] + 1))
+        intf = pp.MortarGrid(2, {s: old.copy() for s in SIDES}, ps)
+        ctx = {"intf": intf, "covered": None, "n_sec": nc}
+        self.nest_exc = None
+        if self.hook:
+            self.hook("init", ctx)
+            try:
+                intf.update_mortar({SIDES[0]: new}, 1e-6)
+                self.hook("step0:mortar", ctx)
+                intf.update_secondary(new, 1e-6)
+                self.hook("step1:secondary", ctx)
+            except ValueError as e:  # MortarGrid._check_mappings rejecting the refinement
+                self.nest_exc = f"{type(e).__name__}: {e}"
 
     def run(self):
         getattr(self, "run_" + self.case["kind"])()
         return self
+
+
+def _py_refine(enc, t):
+    """independent implementation of the refinement recipes (exact Fractions); returns (children, rest of enc)"""
+    tag = enc.pop(0)
+    a, b, c = t
+    lerp = lambda p, q, s: (p[0] + s * (q[0] - p[0]), p[1] + s * (q[1] - p[1]))
+    if tag == "0":
+        return [t], enc
+    if tag == "1":
+        s = Fraction(enc.pop(0))
+        m = lerp(b, c, s)
+        l, enc = _py_refine(enc, (a, b, m))
+        r, enc = _py_refine(enc, (a, m, c))
+        return l + r, enc
+    if tag == "2":
+        return _py_refine(enc, (b, c, a))
+    if tag == "3":
+        u, v = Fraction(enc.pop(0)), Fraction(enc.pop(0))
+        p = (a[0] + u * (b[0] - a[0]) + v * (c[0] - a[0]), a[1] + u * (b[1] - a[1]) + v * (c[1] - a[1]))
+        out = []
+        for sub in ((p, b, c), (a, p, c), (a, b, p)):
+            o, enc = _py_refine(enc, sub)
+            out += o
+        return out, enc
+    if tag == "4":
+        h = Fraction(1, 2)
+        mab, mbc, mca = lerp(a, b, h), lerp(b, c, h), lerp(c, a, h)
+        out = []
+        for sub in ((a, mab, mca), (mab, b, mbc), (mca, mbc, c), (mab, mbc, mca)):
+            o, enc = _py_refine(enc, sub)
+            out += o
+        return out, enc
+    raise ValueError(tag)
 
 
 _CACHE = {}
@@ -534,7 +682,7 @@ def model_decode(outs, case):
     """regroup the driver answers like impl_run: syn: one snapshot per op; mdg: one dict {fracture: snapshot} per step"""
     if case["kind"] == "tri":
         return []
-    if case["kind"] == "syn":
+    if case["kind"] in ("syn", "nest"):
         return outs
     tr = _trace(case)
     ops = tr.ops
@@ -685,6 +833,17 @@ def _stored_duplicates(intf):
     return col.size != np.unique(col).size
 
 
+def _self_match_broken(grids):
+    """root-cause test for 2-D grids: match_2d of a grid with itself must be the identity"""
+    import porepy as pp
+    for g in grids:
+        if g is not None and g.dim == 2:
+            M = pp.match_grids.match_2d(g, g, 1e-6, scaling=None).toarray()
+            if np.abs(M - np.eye(g.num_cells)).max() > 0:
+                return True
+    return False
+
+
 def _oracle_hook(case, res):
     """hook for _Trace: checks the property after construction and after every step; the first failure is kept in
     res['r'] (the run continues so that the same run also serves as impl_run)"""
@@ -714,6 +873,8 @@ def _oracle_hook(case, res):
             r = _check_intf(intf, side_faces, sec_vol, face_area, state["geo"].setdefault(k, {}) if case["kind"] == "mdg" else None)
             if r is not None:
                 key = f"{case['kind']}:{op}:{r[0]}:{r[1]}"
+                if case["kind"] == "tri" and _self_match_broken(list(intf.side_grids.values()) + [ctx.get("sec")]):
+                    key = "match_2d:touching-triangles-reported-as-overlapping"
                 if op == "primary" and state["dup_before"].get(k):
                     key = "update_primary:old-face-in-several-mortar-cells"
                 res["r"] = {"what": f"{label}, interface {k}: {r[2]} ({r[0]} of {r[1]})", "key": key}
@@ -725,7 +886,42 @@ def _oracle_hook(case, res):
 
 
 def oracle(case):
-    return _trace(case).oracle.get("r")
+    tr = _trace(case)
+    r = tr.oracle.get("r")
+    if case["kind"] == "nest":
+        out = tr.impl[0]
+        A = np.array([[float(Fraction(x)) for x in row] for row in out["averaged"]["rows"]])
+        I = np.array([[float(Fraction(x)) for x in row] for row in out["integrated"]["rows"]])
+        old, new = tr.nest
+        W = tr.nest_exact
+        bad = None
+        extra = np.argwhere((tr.nest_pat > 0) & (W == 0))
+        extra_self = np.argwhere((tr.nest_self > 0) & (np.eye(new.num_cells) == 0))
+        missing = np.argwhere((tr.nest_pat == 0) & (W > 1e-6))
+        if extra.size:
+            bad = f"new cell {extra[0][0]} is reported to overlap old cell {extra[0][1]}, which is not its parent (they only touch)"
+        elif missing.size:
+            bad = f"the overlap of new cell {missing[0][0]} with its parent {missing[0][1]} (area {W[missing[0][0], missing[0][1]]:.4g}) is not reported"
+        elif extra_self.size:
+            bad = f"matching the refined grid with itself, cells {extra_self[0][0]} and {extra_self[0][1]}, which only touch, are reported as overlapping"
+        if bad:
+            return {"what": "2-D mortar grid, nested triangle refinement: " + bad, "key": "match_2d:touching-triangles-reported-as-overlapping"}
+        if np.abs(A * new.cell_volumes[:, None] - W).max() > OTOL or np.abs(I * old.cell_volumes[None, :] - W).max() > OTOL:
+            return {"what": "2-D mortar grid, nested triangle refinement: the weights of match_2d(new, old) are not (area of the new cell) / (area of the new resp. old cell) for its parent, 0 otherwise",
+                    "key": "nest:match_2d:weights"}
+        if tr.nest_exc:
+            return {"what": "2-D mortar grid, nested triangle refinement: update_mortar / update_secondary raised " + tr.nest_exc, "key": "nest:update-raised"}
+        if r is not None:
+            return r
+        if A.min() < 0 or I.min() < 0:
+            return {"what": "match_2d: negative weight", "key": "nest:match_2d:negative"}
+        if not _near(A.sum(1), 1):
+            return {"what": f"match_2d averaged: row sums {np.unique(np.round(A.sum(1), 10))[:4]}", "key": "nest:match_2d:rowsum"}
+        if not _near(I.sum(0), 1):
+            return {"what": f"match_2d integrated: column sums {np.unique(np.round(I.sum(0), 10))[:4]}", "key": "nest:match_2d:colsum"}
+        if not _near(I @ old.cell_volumes - new.cell_volumes, 0) or not _near(A.T @ new.cell_volumes - old.cell_volumes, 0):
+            return {"what": "match_2d: cell areas are not mapped to cell areas", "key": "nest:match_2d:measure"}
+    return r
 
 
 # ----------------------------------------------------------------------------- bookkeeping for the evidence
@@ -734,6 +930,8 @@ def _nonmatching_step(case):
 
 
 def nontrivial(case):
+    if case["kind"] == "nest":
+        return any(enc != ["0"] for enc in case["recipes"])
     if case["kind"] == "syn" and case.get("bad"):
         return False
     return _nonmatching_step(case)
